@@ -160,7 +160,11 @@ struct PairRunner {
       TA v{}; fill(rng, v, 0);
       nop::Serializer<nop::BufferWriter*> sizer;
       WResult w = write_kind<PA>(W_BUF, v, sizer.GetSize(v), {});
-      if (!w.ok) continue;
+      if (!w.ok) {
+        // a generated value is well-typed and within every capacity: Write into GetSize() bytes must succeed
+        c.line('X', "C01/C06/C09 writer-refused-valid-value A=" + std::string(PA::sexp) + " status=" + status_name(w.err) + " val=" + dump_str(v, false));
+        continue;
+      }
       TB dest{};
       RResult r = read_kind<PB>("buf", w.bytes, dest, w.pushed);
       c.line('M', "dec " + tb + " buf " + hex(w.bytes) + " - " + join(w.pushed));
